@@ -16,7 +16,7 @@ def run(ctx):
     mworld.run_family(
         ctx, "C03", scenarios=[1, 2, 5], impls=['basicmutable', 'overlay-basic', 'overlay-mutable', 'overlay-empty', 'overlay-compact'],
         sections=['search'], finish=False,
-        focused=(120, 2000))
+        focused=(120, 800))
     # static worlds: basic, compact, compact merged from several files (incl. files that restate the same points,
     # so that a result comes from three merged iterators), and layered worlds (scenario 2)
     if not ctx.quick:   # layered worlds are C16's quick tier
